@@ -224,12 +224,18 @@ func runGate(op string) (out string) {
 			res = append(res, s)
 		}
 	}
-	fwd := 0
+	fwd, bad := 0, 0
 	for _, rq := range env.Cluster.Log() {
-		_ = rq
 		fwd++
+		if rq.Frame == nil || rq.DecodeErr != nil { // e.g. a compressed frame on a connection that negotiated none
+			bad++
+		}
 	}
-	return strings.Join(res, " ") + fmt.Sprintf(" fwd=%d", fwd)
+	out = strings.Join(res, " ") + fmt.Sprintf(" fwd=%d", fwd)
+	if bad > 0 {
+		out += fmt.Sprintf(" bad=%d", bad)
+	}
+	return out
 }
 
 func genGate(e *emitter, r *rng.R, n int, tier string) {
@@ -272,7 +278,7 @@ func genGate(e *emitter, r *rng.R, n int, tier string) {
 	comps := []string{"-", "lz4", "LZ4", "snappy", "Snappy", "SNAPPY", "zstd", "gzip", "", "lz4 ", "none"}
 	evs := []string{"SCHEMA_CHANGE", "TOPOLOGY_CHANGE", "STATUS_CHANGE", "SCHEMA_CHANGE,STATUS_CHANGE", "TOPOLOGY_CHANGE,STATUS_CHANGE,SCHEMA_CHANGE"}
 	for _, c := range comps {
-		ops = append(ops, fmt.Sprintf("M:4 O S:%s Q O", c), fmt.Sprintf("M:4 S:%s R:SCHEMA_CHANGE Q", c))
+		ops = append(ops, fmt.Sprintf("M:4 O S:%s Q O", c), fmt.Sprintf("M:4 S:%s R:SCHEMA_CHANGE Q", c), fmt.Sprintf("M:4 Q S:%s Q Q", c))
 	}
 	for i := 0; i < n; i++ {
 		rr := r.Fork(uint64(i))
@@ -282,7 +288,7 @@ func genGate(e *emitter, r *rng.R, n int, tier string) {
 			switch c := rr.Intn(10); {
 			case c < 2:
 				parts = append(parts, "O")
-			case c < 5 || !started:
+			case c < 5 || (!started && rr.Intn(3) > 0): // (sometimes requests come before the first STARTUP)
 				comp := rr.Pick(comps)
 				if started && comp != "-" { // a second STARTUP changing compression mid-stream is outside the property
 					comp = "-"
